@@ -585,7 +585,7 @@ def toc_doc(r, style="fenced"):
     parts = []
     for i in range(n):
         lv = r.randint(1, 6)
-        t = words(r, 1, 2) + r.choice(["", "", " *em*", " `c`", " <b>", " [l](/u)", " &amp;"])
+        t = words(r, 1, 2) + r.choice(["", "", " *em*", " `c`", " <b>", " [l](/u)", " &amp;", " [ref]", " [Ref][]", " [x][ref]", " [ref] tail"])
         k = r.random()
         if k < 0.6:
             parts.append("#" * lv + " " + t + "\n")
@@ -606,4 +606,6 @@ def toc_doc(r, style="fenced"):
     else:
         d = ".. toc::%s\n%s" % (title, "".join("   :%s: %s\n" % o for o in opts))
     parts.insert(r.randint(0, len(parts)), d)
+    # the label that some headings use is defined in some documents only (what a heading shows depends on this document's definitions)
+    parts.append(r.choice(["", "", "[ref]: /target\n", "[REF]: /t2 'T'\n"]))
     return "\n".join(parts)
